@@ -458,3 +458,21 @@ func Ite[T any](c bool, a, b T) T {
 	}
 	return b
 }
+
+// Arena declares that objects of type T allocated by goroutines inside
+// functions whose name contains fn are drawn from a bounded pool of n slots
+// (needed when such objects are linked into shared data structures). Natively
+// a no-op.
+func Arena[T any](n int, fn string) {}
+
+// TrySend sends v on ch and reports whether the send completed; a send on a
+// closed channel reports false instead of panicking.
+func TrySend[T any](ch chan<- T, v T) (ok bool) {
+	defer func() {
+		if recover() != nil {
+			ok = false
+		}
+	}()
+	ch <- v
+	return true
+}
